@@ -30,6 +30,15 @@ fn check_foreign(items: &[Vec<u8>], utf8: bool, as_name: bool, st: &mut Stats, o
 /// does not match. The statement leaves no room for them: name() and comment() decode the header bytes by the flag.
 fn check_foreign_x(items: &[Vec<u8>], utf8: bool, as_name: bool, alt: u8, st: &mut Stats, order0: u64) {
     let alt_blocks = |name: &[u8], comment: &[u8]| -> Vec<u8> {
+        // alt 5..7: extra areas that do not end on a block boundary, as other tools leave them (padding bytes behind the last
+        // block, a block header cut short, a block announcing more bytes than are left): such entries are accepted, and their
+        // name and comment are decoded like anyone else's
+        match alt {
+            5 => return [crate::reference::zipbuild::extra_block(0x7777, b"ok"), vec![0, 0]].concat(),
+            6 => return vec![0x77, 0x77, 0x02],
+            7 => return [crate::reference::zipbuild::extra_block(0x7777, b"ok"), vec![0x88, 0x88, 0x40, 0x00, b'x']].concat(),
+            _ => {}
+        }
         if alt == 0 || alt >= 3 {
             return vec![];
         }
@@ -143,6 +152,30 @@ fn check_foreign_x(items: &[Vec<u8>], utf8: bool, as_name: bool, alt: u8, st: &m
         st.count("visitor_metadata_checked", v.i.min(items.len()) as u64);
         for (i, got, want) in v.bad.into_iter().take(1) {
             st.viol(format!("visitor-{what}/wrong-decoding/{mode}"), format!("visitor metadata: {what} of bytes {} is {:?}, expected {:?}", hex(&items[i]), got, want), json!({"kind":"foreign","items":[hex(&items[i])],"utf8":utf8,"as_name":as_name,"alt":alt}), order0 + i as u64);
+        }
+    }
+    // the archive taken over by a writer (new_append) and finished again: every entry must still carry the same name string
+    // (names of at most 65535 bytes once re-encoded; the name set of the long-string archives is outside that)
+    if as_name && alt == 0 && items.iter().all(|it| it.len() <= 8) {
+        let (res, again) = exec_append(&bytes, &[Call::Finish], &[]);
+        st.evals += 1;
+        if res.iter().all(|r| r.is_ok()) {
+            match guard(|| zip::ZipArchive::new(Cursor::new(&again[..])).map(|mut a| (0..a.len()).map(|i| a.by_index_raw(i).map(|f| f.name().to_string()).unwrap_or_else(|e| format!("<{e}>"))).collect::<Vec<_>>())) {
+                Ok(Ok(names)) => {
+                    for (i, it) in items.iter().enumerate() {
+                        let want = expected(it, utf8);
+                        if names.get(i) != Some(&want) {
+                            st.viol(format!("name/changed-by-append-round/{mode}"), format!("entry name {:?} (stored bytes {}, {mode}) reads {:?} after the archive was opened with new_append and finished again", want, hex(it), names.get(i)), json!({"kind":"foreign","items":[hex(it)],"utf8":utf8,"as_name":as_name,"alt":alt}), order0 + i as u64);
+                            break;
+                        }
+                    }
+                    st.count("names_checked_after_append_round", items.len() as u64);
+                }
+                Ok(Err(e)) => st.viol(format!("append-round/unreadable/{mode}"), format!("after new_append + finish the archive does not open: {e}"), json!({"kind":"foreign","items":[hex(&items[0])],"utf8":utf8,"as_name":as_name,"alt":alt}), order0),
+                Err(p) => st.viol(format!("panic/append-round/{}", panic_site(&p)), p, json!({"kind":"foreign","items":[hex(&items[0])],"utf8":utf8,"as_name":as_name,"alt":alt}), order0),
+            }
+        } else {
+            st.count("append_round_refused", 1);
         }
     }
     for (i, it) in items.iter().enumerate() {
@@ -329,7 +362,7 @@ pub fn run(args: &Args) -> i32 {
     ctx.stats.sample(json!({"kind":"foreign","items":["61e962"],"utf8":false,"as_name":true}));
     // every 2-byte string: 256 archives of 256 names
     // ... plainly, and next to Info-ZIP Unicode Path / Unicode Comment blocks (matching and non-matching CRC) that offer another text
-    let s = par_for(256 * 4 * 5, 1, |t, st| {
+    let s = par_for(256 * 4 * 8, 1, |t, st| {
         let hi = (t % 256) as u8;
         let utf8 = (t / 256) % 2 == 1;
         let as_name = (t / 512) % 2 == 0;
@@ -337,7 +370,7 @@ pub fn run(args: &Args) -> i32 {
         let items: Vec<Vec<u8>> = (0..=255u8).map(|lo| vec![hi, lo]).collect();
         check_foreign_x(&items, utf8, as_name, alt, st, (2 << 30) + ((alt as u64) << 24) + ((hi as u64) << 8));
     });
-    counted += 65536 * 4 * 5;
+    counted += 65536 * 4 * 8;
     ctx.stats.merge(s);
     ctx.bound("foreign_lengths", json!(if thorough { "1, 2 and 3 bytes exhaustively in both modes as name and comment; 12 long strings" } else { "1 and 2 bytes exhaustively in both modes as name and comment (also next to Info-ZIP Unicode blocks and with directory attributes), 3 bytes as UTF-8-mode names and comments; 12 long strings" }));
     {
